@@ -12,14 +12,18 @@ Model of the local-process machinery of `crates/edp_node`:
                    for each: registry.get, send MonitorExit; registry.remove (two accesses); drop the mailbox`)
 * `node.rs`      — `spawn` (allocate pid, start the task, THEN `registry.insert`), `register`, `unregister`, `whereis`,
                    `registered`, `process_count`, `send` (local: `registry.get`, then mailbox send), `send_to_name`
-                   (`whereis`, then `send`), `link`/`unlink` (`get from`, add; `get to`, add), `monitor`
-                   (`make_reference`; `get to`; `add_monitor`), `demonitor`
+                   (`whereis`, then `send`), `link` (`get from`, `add_link`; refused: `get to`, send `Exit{noproc}`;
+                   `get to`, `add_link`; refused: `get from`, send `Exit{noproc}`), `unlink`, `monitor`
+                   (`make_reference`; `get to`; `add_monitor`; refused: `get from`, send `MonitorExit{noproc}`), `demonitor`
 * `gen_server.rs`, `gen_event.rs` — the dispatch of `handle_message` as pure functions of the message (second half).
 
 Every access to shared state under one lock is ONE atomic step; a schedule is a list of events saying which task takes
 its next step.  A step that would block (full mailbox, `by_name` held by a `register` in progress) is not enabled.
 `register` is modelled as it is after the repair proposed for this property (notes/C18.md): it holds the `by_name`
-write lock while it checks `by_pid`.
+write lock while it checks `by_pid`.  The link and monitor sets are modelled as they are after the second repair
+(`ExitSet`: `entries` + `closed`): the terminating task closes the set in the step that reads it; `add` still inserts
+but reports an entry that is new to a closed set (the caller then sends the `noproc` notice); `remove` leaves a closed
+set alone.
 
 Identifiers: pids, names (atoms), references and client tasks are natural numbers; the allocators hand out fresh
 numbers (their uniqueness is property C16).  A `ProcessHandle` is identified with its pid: the handle's `Sender`,
@@ -33,12 +37,15 @@ abbrev Name := Nat
 abbrev Ref := Nat
 abbrev Tid := Nat
 
-/-- `mailbox.rs Message`, the variants local delivery produces. The exit reason is always the atom `error`
-(the loop's `normal` branch is unreachable, see above), so it is not carried. -/
+/-- `mailbox.rs Message`, the variants local delivery produces. The exit reason of a notice sent by the terminating
+task is always the atom `error` (the loop's `normal` branch is unreachable, see above); the notices `Node::link` /
+`Node::monitor` send for an entry that came too late carry `noproc`: separate constructors. -/
 inductive Msg
   | regular (id : Nat) (fail : Bool)   -- `Regular{from: None, body}`; `fail`: the handler returns `Err` on this body
-  | exit (frm : Pid)                    -- `Exit{from, reason}`
-  | monExit (monitored : Pid) (ref : Ref)  -- `MonitorExit{monitored, reference, reason}`
+  | exit (frm : Pid)                    -- `Exit{from, reason: error}`
+  | monExit (monitored : Pid) (ref : Ref)  -- `MonitorExit{monitored, reference, reason: error}`
+  | exitNoproc (frm : Pid)              -- `Exit{from, reason: noproc}`
+  | monNoproc (monitored : Pid) (ref : Ref)  -- `MonitorExit{monitored, reference, reason: noproc}`
 deriving DecidableEq, Repr, Inhabited
 
 /-- does the process's handler return `Err` on this message? (`trap = false`: the process dies of an exit signal,
@@ -47,10 +54,13 @@ def Msg.fails (trap : Bool) : Msg → Bool
   | .regular _ f => f
   | .exit _ => !trap
   | .monExit _ _ => false
+  | .exitNoproc _ => !trap
+  | .monNoproc _ _ => false
 
 inductive Sender
-  | client (t : Tid)
-  | proc (p : Pid)
+  | client (t : Tid)                    -- a `send` / `send_to_name` of client task `t`
+  | proc (p : Pid)                      -- the exit propagation of process `p`
+  | late (t : Tid)                      -- the `noproc` notice `link` / `monitor` of client task `t` sends for a late entry
 deriving DecidableEq, Repr, Inhabited
 
 /-- program counter of a process task (`process.rs spawn_process`) -/
@@ -72,8 +82,10 @@ structure Proc where
   trap : Bool := true
   mailbox : List Msg := []
   closed : Bool := false                  -- receiver dropped
-  links : List Pid := []                  -- `HashSet<ExternalPid>`
-  monitors : List (Pid × Ref) := []       -- `HashSet<(ExternalPid, ExternalReference)>`
+  links : List Pid := []                  -- `ExitSet<ExternalPid>.entries`
+  closedL : Bool := false                 -- `ExitSet.closed` of the links: set by `close_links`
+  monitors : List (Pid × Ref) := []       -- `ExitSet<(ExternalPid, ExternalReference)>.entries`
+  closedM : Bool := false                 -- `ExitSet.closed` of the monitors: set by `close_monitors`
   -- ghost state (never read by a step)
   inserted : Bool := false                -- `registry.insert` of `Node::spawn` has happened
   accepted : List (Sender × Msg) := []    -- every message a mailbox send returned Ok for, in order
@@ -136,9 +148,15 @@ inductive CPc
   | lk2 (add : Bool) (a b : Pid)         -- holds `from_handle`; next: `add_link(to)` / `remove_link(to)`
   | lk3 (add : Bool) (a b : Pid)         -- next: `registry.get(to)`
   | lk4 (add : Bool) (a b : Pid)         -- holds `to_handle`; next: `add_link(from)` / `remove_link(from)`
+  | lkA (a b : Pid)                      -- `from.add_link(to)` was refused; next: `registry.get(to)` of `signal_noproc_exit(to, from)`
+  | lkB (a b : Pid)                      -- holds the handle of `to`; next: mailbox send of `Exit{from: a, noproc}` to `b`
+  | lkC (a b : Pid)                      -- `to.add_link(from)` was refused; next: `registry.get(from)` of `signal_noproc_exit(from, to)`
+  | lkD (a b : Pid)                      -- holds the handle of `from`; next: mailbox send of `Exit{from: b, noproc}` to `a`
   | mon1 (a b : Pid)                     -- next: `make_reference`
   | mon2 (a b : Pid) (r : Ref)           -- next: `registry.get(to)`
   | mon3 (a b : Pid) (r : Ref)           -- holds `to_handle`; next: `add_monitor(from, ref)`
+  | monN1 (a b : Pid) (r : Ref)          -- `add_monitor` was refused; next: `registry.get(from)`
+  | monN2 (a b : Pid) (r : Ref)          -- holds `from_handle`; next: mailbox send of `MonitorExit{b, r, noproc}` to `a`
   | dem1 (a b : Pid) (r : Ref)           -- next: `registry.get(to)`
   | dem2 (a b : Pid) (r : Ref)           -- next: `remove_monitor(ref)`
 deriving DecidableEq, Repr, Inhabited
@@ -169,6 +187,15 @@ structure St where
   cpc : Tid → CPc := fun _ => .idle
   sent : Tid → List (Pid × Msg) := fun _ => []   -- ghost: what the task's sends returned Ok for
   out : List (Tid × Res) := []           -- finished calls in completion order
+  -- ghost: late entries, as (terminating process, receiver) / (terminating process, (watcher, reference))
+  lateL : List (Pid × Pid) := []         -- entries `add_link` refused (new to the closed set), in order
+  sentNL : List (Pid × Pid) := []        -- … whose mailbox took the `Exit{noproc}`
+  skipNL : List (Pid × Pid) := []        -- … whose mailbox was closed
+  noRegL : List (Pid × Pid) := []        -- … which `registry.get` did not find
+  lateM : List (Pid × (Pid × Ref)) := []
+  sentNM : List (Pid × (Pid × Ref)) := []
+  skipNM : List (Pid × (Pid × Ref)) := []
+  noRegM : List (Pid × (Pid × Ref)) := []
 
 def St.init (cap : Nat) : St := { cap := cap }
 
@@ -257,20 +284,57 @@ def clientStep (st : St) (t : Tid) : Option St :=
   | .lk1 add a b =>
     if a ∈ st.byPid then some (st.setC t (.lk2 add a b)) else some (st.setC t (.lk3 add a b))
   | .lk2 add a b =>
-    some ((st.modP a fun q => { q with links := if add then setIns b q.links else q.links.filter (· ≠ b) }).setC t (.lk3 add a b))
+    if add then
+      if (st.procs a).closedL = true ∧ b ∉ (st.procs a).links then
+        some (({ st with lateL := st.lateL ++ [(a, b)] }.modP a fun q => { q with links := q.links ++ [b] }).setC t (.lkA a b))
+      else some ((st.modP a fun q => { q with links := setIns b q.links }).setC t (.lk3 add a b))
+    else if (st.procs a).closedL = true then some (st.setC t (.lk3 add a b))
+    else some ((st.modP a fun q => { q with links := q.links.filter (· ≠ b) }).setC t (.lk3 add a b))
+  | .lkA a b =>
+    if b ∈ st.byPid then some (st.setC t (.lkB a b))
+    else some ({ st with noRegL := st.noRegL ++ [(a, b)] }.setC t (.lk3 true a b))
+  | .lkB a b =>
+    if (st.procs b).closed then some ({ st with skipNL := st.skipNL ++ [(a, b)] }.setC t (.lk3 true a b))
+    else if (st.procs b).mailbox.length < st.cap then
+      some ({ st.deliver (.late t) b (.exitNoproc a) with sentNL := st.sentNL ++ [(a, b)] }.setC t (.lk3 true a b))
+    else none
   | .lk3 add a b =>
     if b ∈ st.byPid then some (st.setC t (.lk4 add a b)) else some (st.ret t .ok)
   | .lk4 add a b =>
-    some ((st.modP b fun q => { q with links := if add then setIns a q.links else q.links.filter (· ≠ a) }).ret t .ok)
+    if add then
+      if (st.procs b).closedL = true ∧ a ∉ (st.procs b).links then
+        some (({ st with lateL := st.lateL ++ [(b, a)] }.modP b fun q => { q with links := q.links ++ [a] }).setC t (.lkC a b))
+      else some ((st.modP b fun q => { q with links := setIns a q.links }).ret t .ok)
+    else if (st.procs b).closedL = true then some (st.ret t .ok)
+    else some ((st.modP b fun q => { q with links := q.links.filter (· ≠ a) }).ret t .ok)
+  | .lkC a b =>
+    if a ∈ st.byPid then some (st.setC t (.lkD a b))
+    else some ({ st with noRegL := st.noRegL ++ [(b, a)] }.ret t .ok)
+  | .lkD a b =>
+    if (st.procs a).closed then some ({ st with skipNL := st.skipNL ++ [(b, a)] }.ret t .ok)
+    else if (st.procs a).mailbox.length < st.cap then
+      some ({ st.deliver (.late t) a (.exitNoproc b) with sentNL := st.sentNL ++ [(b, a)] }.ret t .ok)
+    else none
   | .mon1 a b => some ({ st with nextRef := st.nextRef + 1 }.setC t (.mon2 a b st.nextRef))
   | .mon2 a b r =>
     if b ∈ st.byPid then some (st.setC t (.mon3 a b r)) else some (st.ret t (.ref r))
   | .mon3 a b r =>
-    some ((st.modP b fun q => { q with monitors := setIns (a, r) q.monitors }).ret t (.ref r))
+    if (st.procs b).closedM = true ∧ (a, r) ∉ (st.procs b).monitors then
+      some (({ st with lateM := st.lateM ++ [(b, (a, r))] }.modP b fun q => { q with monitors := q.monitors ++ [(a, r)] }).setC t (.monN1 a b r))
+    else some ((st.modP b fun q => { q with monitors := setIns (a, r) q.monitors }).ret t (.ref r))
+  | .monN1 a b r =>
+    if a ∈ st.byPid then some (st.setC t (.monN2 a b r))
+    else some ({ st with noRegM := st.noRegM ++ [(b, (a, r))] }.ret t (.ref r))
+  | .monN2 a b r =>
+    if (st.procs a).closed then some ({ st with skipNM := st.skipNM ++ [(b, (a, r))] }.ret t (.ref r))
+    else if (st.procs a).mailbox.length < st.cap then
+      some ({ st.deliver (.late t) a (.monNoproc b r) with sentNM := st.sentNM ++ [(b, (a, r))] }.ret t (.ref r))
+    else none
   | .dem1 a b r =>
     if b ∈ st.byPid then some (st.setC t (.dem2 a b r)) else some (st.ret t .ok)
   | .dem2 _ b r =>
-    some ((st.modP b fun q => { q with monitors := q.monitors.filter (fun e => e.2 ≠ r) }).ret t .ok)
+    if (st.procs b).closedM = true then some (st.ret t .ok)
+    else some ((st.modP b fun q => { q with monitors := q.monitors.filter (fun e => e.2 ≠ r) }).ret t .ok)
 
 /-! ### one atomic step of a process task -/
 
@@ -285,9 +349,9 @@ def procStep (st : St) (p : Pid) (k : Nat) : Option St :=
       some (st.modP p fun q =>
         { q with mailbox := rest, handled := q.handled ++ [m], pc := if m.fails q.trap then .exiting else .recv })
   | .exiting =>
-    some (st.modP p fun q => { q with pc := .notifyL q.links, snapL := q.links, liveL := st.byPid })
+    some (st.modP p fun q => { q with pc := .notifyL q.links, closedL := true, snapL := q.links, liveL := st.byPid })
   | .notifyL [] =>
-    some (st.modP p fun q => { q with pc := .notifyM q.monitors, snapM := q.monitors, liveM := st.byPid })
+    some (st.modP p fun q => { q with pc := .notifyM q.monitors, closedM := true, snapM := q.monitors, liveM := st.byPid })
   | .notifyL (x :: xs) =>
     match (x :: xs)[k]? with
     | none => none
@@ -334,8 +398,8 @@ def stepEv (st : St) : Ev → Option St
 /-- run a schedule; an event that is not enabled is skipped -/
 def run (st : St) (evs : List Ev) : St := evs.foldl (fun st e => (stepEv st e).getD st) st
 
-/-- task `t` calls `op` and runs it to its end without interruption (at most five steps) -/
-def callEvs (t : Tid) (op : Op) : List Ev := .start t op :: List.replicate 5 (.cont t)
+/-- task `t` calls `op` and runs it to its end without interruption (at most eight steps: a `link` refused on both sides) -/
+def callEvs (t : Tid) (op : Op) : List Ev := .start t op :: List.replicate 8 (.cont t)
 
 /-! ### derived notions used by the statements -/
 
@@ -380,6 +444,17 @@ def PPc.todoM : PPc → List (Pid × Ref)
 def PPc.monsDone : PPc → Bool
   | .sweep | .closing | .dead => true
   | _ => false
+
+/-- the late entry a client task is about to answer with a `noproc` exit signal: (the terminating process, the receiver) -/
+def CPc.pendL : CPc → Option (Pid × Pid)
+  | .lkA a b | .lkB a b => some (a, b)
+  | .lkC a b | .lkD a b => some (b, a)
+  | _ => none
+
+/-- the late monitor a client task is about to answer with a `noproc` notice: (the terminating process, (watcher, reference)) -/
+def CPc.pendM : CPc → Option (Pid × (Pid × Ref))
+  | .monN1 a b r | .monN2 a b r => some (b, (a, r))
+  | _ => none
 
 /-- how often `m` occurs in what `p`'s mailbox accepted -/
 def St.timesAccepted (st : St) (p : Pid) (m : Msg) : Nat := ((st.procs p).accepted.map (·.2)).count m
